@@ -70,7 +70,6 @@ Record eff (w w' : world) (f' : St) : Prop := mkeff {
   eff_raw  : forall x, w_raw w' x = f' x;
   eff_kill : forall x, w_kill w' x = w_kill w x;
   eff_psn  : forall x, w_psn w' x = w_psn w x;
-  eff_data : forall x, w_data w' x = w_data w x;
   eff_keyf : forall x, w_keyf w' x = w_keyf w x;
   eff_f1   : w_f1 w' = w_f1 w;
   eff_fp   : w_fp w' = w_fp w;
@@ -94,7 +93,6 @@ Proof.
   - apply (eff_raw _ _ _ B).
   - intros x. rewrite (eff_kill _ _ _ B). apply (eff_kill _ _ _ A).
   - intros x. rewrite (eff_psn _ _ _ B). apply (eff_psn _ _ _ A).
-  - intros x. rewrite (eff_data _ _ _ B). apply (eff_data _ _ _ A).
   - intros x. rewrite (eff_keyf _ _ _ B). apply (eff_keyf _ _ _ A).
   - rewrite (eff_f1 _ _ _ B). apply (eff_f1 _ _ _ A).
   - rewrite (eff_fp _ _ _ B). apply (eff_fp _ _ _ A).
